@@ -621,7 +621,11 @@ static void DecodeWORD(Word Code) {
 
     if (ChkArgCnt(1, ArgCntMax)) {
         OK = True;
-        z  = 1;
+        if (SetMaxCodeLen(4 * ArgCnt)) {
+            WrError(ErrNum_CodeOverflow);
+            OK = False;
+        }
+        z = 1;
         while ((z <= ArgCnt) && (OK)) {
             DAsmCode[z - 1] = EvalStrIntExpression(&ArgStr[z], Int32, &OK);
             z++;
